@@ -819,4 +819,273 @@ theorem wmRun_inv {d : Nat} (hd : 1 ≤ d) (es : List Ev) (m : WM) (hm : MInv d 
     obtain ⟨m2, h2, hm2, hc2, hx2⟩ := ih m1 hm1
     exact ⟨m2, by simp [wmRun, h1, h2], hm2, by rw [hc2, hc1], by rw [hx2, hx1]⟩
 
+/-! ### WindowManager: every clause of the step predicate -/
+
+/-- events of the window that starts at `s` (model side of `eventsAt`) -/
+def evAt (ws : List TW) (s : Nat) : List Ev :=
+  match ws.find? (fun w => w.start == s) with
+  | some w => w.events
+  | none => []
+
+theorem eventsAt_wobs (div : Int → Nat → Nat) (ws : List TW) (s : Nat) :
+    eventsAt (ws.map (TW.wobs div)) s = evAt ws s := by
+  induction ws with
+  | nil => rfl
+  | cons w ws ih =>
+    unfold eventsAt evAt at ih ⊢
+    cases h : (w.start == s) with
+    | true => simp [TW.wobs, h]
+    | false => simpa [List.find?_cons, TW.wobs, h] using ih
+
+theorem evAt_of_mem {ws : List TW} (hn : ws.Pairwise (fun a b => a.start ≠ b.start)) {w0 : TW} (h0 : w0 ∈ ws) :
+    evAt ws w0.start = w0.events := by
+  induction ws with
+  | nil => cases h0
+  | cons w ws ih =>
+    rw [List.pairwise_cons] at hn
+    rcases List.mem_cons.mp h0 with rfl | h0
+    · simp [evAt]
+    · have hne : ¬ w.start = w0.start := hn.1 w0 h0
+      have := ih hn.2 h0
+      unfold evAt at this ⊢
+      simpa [List.find?_cons, hne] using this
+
+theorem evAt_of_absent {ws : List TW} {s : Nat} (h : ∀ w ∈ ws, w.start ≠ s) : evAt ws s = [] := by
+  unfold evAt
+  have : ws.find? (fun w => w.start == s) = none := by
+    rw [List.find?_eq_none]; intro w hw; simpa using h w hw
+  rw [this]
+
+theorem evAt_subset {ws : List TW} {s : Nat} {x : Ev} (h : x ∈ evAt ws s) : ∃ w ∈ ws, x ∈ w.events := by
+  unfold evAt at h
+  cases hf : ws.find? (fun w => w.start == s) with
+  | none => simp [hf] at h
+  | some w => rw [hf] at h; exact ⟨w, List.mem_of_find?_eq_some hf, h⟩
+
+theorem sum_map_single (s c : Nat) (f : TW → Nat) (l : List TW)
+    (hn : l.Pairwise (fun a b => a.start ≠ b.start))
+    (h0 : ∀ w ∈ l, w.start ≠ s → f w = 0) (h1 : ∀ w ∈ l, w.start = s → f w = c) :
+    (l.map f).sum = if l.any (fun w => decide (w.start = s)) = true then c else 0 := by
+  induction l with
+  | nil => simp
+  | cons w l ih =>
+    rw [List.pairwise_cons] at hn
+    have ih' := ih hn.2 (fun w' hw' => h0 w' (List.mem_cons_of_mem _ hw')) (fun w' hw' => h1 w' (List.mem_cons_of_mem _ hw'))
+    simp only [List.map_cons, List.sum_cons, List.any_cons, ih']
+    by_cases hs : w.start = s
+    · have habs : l.any (fun w => decide (w.start = s)) = false := by
+        rw [List.any_eq_false]; intro w' hw'; simpa using fun h' => hn.1 w' hw' (hs.trans h'.symm)
+      simp [hs, habs, h1 w (by simp) hs]
+    · simp [hs, h0 w (by simp) hs]
+
+theorem count_popOver_last (cap : Nat) (old : List Ev) (e : Ev) (he : e ∉ old) :
+    (popOver cap (old ++ [e])).count e = if 1 ≤ cap then 1 else 0 := by
+  by_cases hc : 1 ≤ cap
+  · rw [popOver_append_last old e hc, List.count_append]
+    have : (popOver (cap - 1) old).count e = 0 :=
+      List.count_eq_zero_of_not_mem (fun h => he (mem_of_mem_popOver h))
+    simp [this, hc]
+  · have : cap = 0 := by omega
+    subst this
+    rw [popOver_eq_drop]; simp
+
+/-- `process_event` of a tumbling manager, window by window: every window afterwards is either the aligned
+window of `e` — holding the old content of that window (nothing if it is new) plus `e`, capped — or an old
+window, untouched; and unless `maxW = 0` the aligned window is there. -/
+theorem process_full {d : Nat} {m : WM} (hd : 1 ≤ d) (hm : MInv d m) (e : Ev) :
+    ∃ m', m.process e = some m' ∧ MInv d m' ∧ m'.cap = m.cap ∧ m'.maxW = m.maxW
+      ∧ (∀ w ∈ m'.windows, e.ts < w.stop)
+      ∧ (∀ w ∈ m'.windows,
+          (w.start = e.ts / d * d ∧ w.events = popOver m.cap (evAt m.windows (e.ts / d * d) ++ [e]))
+          ∨ (w.start ≠ e.ts / d * d ∧ w ∈ m.windows))
+      ∧ (1 ≤ m.maxW → ∃ w ∈ m'.windows, w.start = e.ts / d * d) := by
+  obtain ⟨m', hp, hm', hc, hx, hexp, _⟩ := process_spec hd hm e
+  obtain ⟨ws, hplace, hwins, hdist, hcase⟩ := place_spec hd hm e
+  have hm'w : m'.windows = m.tidy e.ts ws := by
+    simp only [WM.process, hplace, Option.map_some, Option.some.injEq] at hp
+    rw [← hp]
+  have hdist0 := distinct_of_sorted hm.sorted
+  refine ⟨m', hp, hm', hc, hx, hexp, ?_, ?_⟩
+  · intro w hw
+    rw [hm'w] at hw
+    have hw' := (mem_tidy hw).1
+    rcases hcase with ⟨_, hws⟩ | ⟨habs, hws⟩
+    · rw [hws, List.mem_map] at hw'
+      obtain ⟨w1, hw1, rfl⟩ := hw'
+      by_cases h1 : w1.start = e.ts / d * d
+      · left
+        refine ⟨by rw [bump_start, h1], ?_⟩
+        rw [← h1, evAt_of_mem hdist0 hw1]
+        simp [bump, h1]
+      · right
+        have : bump m.cap (e.ts / d * d) e w1 = w1 := by simp [bump, h1]
+        rw [this]; exact ⟨h1, hw1⟩
+    · rw [hws] at hw'
+      rcases List.mem_append.mp hw' with hw' | hw'
+      · right; exact ⟨habs w hw', hw'⟩
+      · left
+        simp only [List.mem_singleton] at hw'
+        subst hw'
+        exact ⟨rfl, by rw [evAt_of_absent habs]; rfl⟩
+  · intro hmax
+    rw [hm'w]
+    rcases hcase with ⟨hany, hws⟩ | ⟨habs, hws⟩
+    · rw [List.any_eq_true] at hany
+      obtain ⟨w0, hw0, hs0⟩ := hany
+      have hs0 : w0.start = e.ts / d * d := by simpa using hs0
+      refine ⟨bump m.cap (e.ts / d * d) e w0, ?_, by rw [bump_start, hs0]⟩
+      unfold WM.tidy
+      rw [mem_sortByStart, popOver_of_le]
+      · rw [List.mem_filter]
+        refine ⟨by rw [hws]; exact List.mem_map_of_mem hw0, ?_⟩
+        have hst : (bump m.cap (e.ts / d * d) e w0).stop = w0.stop := by unfold bump; split <;> rfl
+        have := al_lt d e.ts hd
+        rw [hst, (hm.wins w0 hw0).stop, hs0]; simpa using this
+      · have h1 : (ws.filter fun w => decide (e.ts < w.stop)).length ≤ ws.length := List.length_filter_le _ _
+        have h2 : ws.length = m.windows.length := by rw [hws, List.length_map]
+        have := hm.len
+        omega
+    · refine ⟨{ wtype := .tumbling, dur := d, start := e.ts / d * d, stop := e.ts / d * d + d,
+                cap := m.cap, events := popOver m.cap [e] }, ?_, rfl⟩
+      unfold WM.tidy
+      rw [mem_sortByStart, hws, List.filter_append]
+      have := al_lt d e.ts hd
+      simp only [List.filter_cons, this, decide_true, if_true, List.filter_nil]
+      exact mem_popOver_last _ _ hmax
+
+theorem cond_iff {d : Nat} (hd : 1 ≤ d) {s0 t : Nat} (hs : s0 / d * d = s0) :
+    (s0 / d == t / d) = true ↔ s0 = t / d * d := by
+  rw [beq_iff_eq]
+  constructor
+  · intro h; rw [← h, hs]
+  · intro h; rw [h, al_div d t hd]
+
+theorem occurrences_wobs (div : Int → Nat → Nat) (e : Ev) (ws : List TW) :
+    occurrences e (ws.map (TW.wobs div)) = (ws.map fun w => w.events.count e).sum := by
+  simp [occurrences, List.map_map, Function.comp_def, TW.wobs]
+
+theorem wm_step_ok (div : Int → Nat → Nat) {d : Nat} {m m' : WM} (hd : 1 ≤ d) (hm : MInv d m) (e : Ev)
+    (hfresh : ∀ w ∈ m.windows, e ∉ w.events) (hp : m.process e = some m') :
+    wmStepOk div d m.cap m.maxW (m.windows.map (TW.wobs div)) e (m'.windows.map (TW.wobs div)) = true := by
+  obtain ⟨m2, hp2, hm', hc, hx, hexp, hcls, hex⟩ := process_full hd hm e
+  rw [hp] at hp2
+  cases hp2
+  have hdist := distinct_of_sorted hm.sorted
+  have hdist' := distinct_of_sorted hm'.sorted
+  simp only [wmStepOk, Bool.and_eq_true]
+  refine ⟨⟨⟨⟨?_, ?_⟩, ?_⟩, ?_⟩, ?_⟩
+  · apply strictInc_of_pairwise
+    simpa [List.map_map, Function.comp_def, TW.wobs] using hm'.sorted
+  · simp only [List.length_map, decide_eq_true_eq]; rw [← hx]; exact hm'.len
+  · rw [List.all_eq_true]
+    intro o ho
+    rw [List.mem_map] at ho
+    obtain ⟨w, hw, rfl⟩ := ho
+    have hwi := hm'.wins w hw
+    simp only [Bool.and_eq_true]
+    refine ⟨⟨⟨⟨⟨?_, ?_⟩, ?_⟩, ?_⟩, ?_⟩, aggregate_ok div _⟩
+    · simp only [TW.wobs, beq_iff_eq]; rw [← hwi.aligned]; exact al_mod d _
+    · simp only [TW.wobs, beq_iff_eq]; exact hwi.stop
+    · simp only [TW.wobs, List.all_eq_true, beq_iff_eq]
+      intro x hx'; exact (bucket_eq_iff d w.start x.ts hd hwi.aligned).mp (hwi.inside x hx')
+    · exact decide_eq_true (hexp w hw)
+    · rw [eventsAt_wobs]
+      rcases hcls w hw with ⟨h1, h2⟩ | ⟨h1, h2⟩
+      · have hcond : (w.start / d == e.ts / d) = true := (cond_iff hd hwi.aligned).mpr h1
+        simp only [TW.wobs, hcond, ↓reduceIte]
+        rw [h1, h2]; exact keptByCap_popOver _ _
+      · have hcond : (w.start / d == e.ts / d) = false := by
+          rw [Bool.eq_false_iff]; exact fun h => h1 ((cond_iff hd hwi.aligned).mp h)
+        simp only [TW.wobs, hcond, Bool.false_eq_true, ↓reduceIte]
+        rw [evAt_of_mem hdist h2]
+        simp only [Bool.and_eq_true, beq_self_eq_true, true_and, List.any_eq_true]
+        exact ⟨TW.wobs div w, List.mem_map_of_mem h2, by simp [TW.wobs]⟩
+  · by_cases h0 : m.maxW = 0
+    · simp [h0]
+    · simp only [Bool.or_eq_true, List.any_eq_true]
+      right
+      obtain ⟨w, hw, hs⟩ := hex (by omega)
+      exact ⟨TW.wobs div w, List.mem_map_of_mem hw, (cond_iff hd (hm'.wins w hw).aligned).mpr hs⟩
+  · rw [beq_iff_eq, occurrences_wobs]
+    have hold : e ∉ evAt m.windows (e.ts / d * d) := by
+      intro h
+      obtain ⟨w, hw, hxw⟩ := evAt_subset h
+      exact hfresh w hw hxw
+    rw [sum_map_single (e.ts / d * d) ((popOver m.cap (evAt m.windows (e.ts / d * d) ++ [e])).count e)
+          (fun w => w.events.count e) m'.windows hdist'
+          (by
+            intro w hw hne
+            rcases hcls w hw with ⟨h1, _⟩ | ⟨_, h2⟩
+            · exact absurd h1 hne
+            · exact List.count_eq_zero_of_not_mem (hfresh w h2))
+          (by
+            intro w hw heq
+            rcases hcls w hw with ⟨_, h2⟩ | ⟨h1, _⟩
+            · rw [h2]
+            · exact absurd heq h1),
+        count_popOver_last _ _ _ hold]
+    by_cases h0 : 1 ≤ m.maxW
+    · obtain ⟨w, hw, hs⟩ := hex h0
+      have hany : m'.windows.any (fun w => decide (w.start = e.ts / d * d)) = true := by
+        rw [List.any_eq_true]; exact ⟨w, hw, by simpa using hs⟩
+      simp [hany, h0]
+    · have hlen := hm'.len
+      have : m'.windows = [] := by
+        cases hmw : m'.windows with
+        | nil => rfl
+        | cons a l => rw [hmw] at hlen; simp at hlen; omega
+      simp [this, h0]
+
+/-- every event sitting in a window has been offered before -/
+def Seen (seen : List Ev) (m : WM) : Prop := ∀ w ∈ m.windows, ∀ x ∈ w.events, x ∈ seen
+
+theorem seen_step {d : Nat} {m m' : WM} {seen : List Ev} (hd : 1 ≤ d) (hm : MInv d m) (e : Ev)
+    (hs : Seen seen m) (hp : m.process e = some m') : Seen (e :: seen) m' := by
+  obtain ⟨m2, hp2, _, _, _, _, hcls, _⟩ := process_full hd hm e
+  rw [hp] at hp2
+  cases hp2
+  intro w hw x hx
+  rcases hcls w hw with ⟨_, h2⟩ | ⟨_, h2⟩
+  · rw [h2] at hx
+    rcases List.mem_append.mp (mem_of_mem_popOver hx) with hx | hx
+    · obtain ⟨w0, hw0, hxw⟩ := evAt_subset hx
+      exact List.mem_cons_of_mem _ (hs w0 hw0 x hxw)
+    · simp only [List.mem_singleton] at hx; subst hx; simp
+  · exact List.mem_cons_of_mem _ (hs w h2 x hx)
+
+theorem wm_trace_ok (div : Int → Nat → Nat) {d : Nat} (hd : 1 ≤ d) (es : List Ev) (m : WM) (seen : List Ev)
+    (tr : List (List WObs)) (hm : MInv d m) (hs : Seen seen m) (hnd : es.Nodup) (hdisj : ∀ x ∈ es, x ∉ seen)
+    (h : wmTrace div m es = some tr) :
+    wmRunOk div d m.cap m.maxW (m.windows.map (TW.wobs div)) es tr = true := by
+  induction es generalizing m seen tr with
+  | nil => simp [wmTrace] at h; subst h; simp [wmRunOk]
+  | cons e es ih =>
+    simp only [wmTrace] at h
+    cases hp : m.process e with
+    | none => simp [hp] at h
+    | some m' =>
+      simp only [hp] at h
+      cases ht : wmTrace div m' es with
+      | none => simp [ht] at h
+      | some rest =>
+        simp only [ht, Option.map_some, Option.some.injEq] at h
+        subst h
+        obtain ⟨m2, hp2, hm', hc, hx, _⟩ := process_full hd hm e
+        rw [hp] at hp2
+        cases hp2
+        rw [List.nodup_cons] at hnd
+        have hfresh : ∀ w ∈ m.windows, e ∉ w.events :=
+          fun w hw hew => hdisj e (by simp) (hs w hw e hew)
+        simp only [wmRunOk, Bool.and_eq_true]
+        refine ⟨wm_step_ok div hd hm e hfresh hp, ?_⟩
+        have := ih m' (e :: seen) rest hm' (seen_step hd hm e hs hp) hnd.2
+          (by
+            intro x hx hmem
+            rcases List.mem_cons.mp hmem with rfl | hmem
+            · exact hnd.1 hx
+            · exact hdisj x (List.mem_cons_of_mem _ hx) hmem)
+          ht
+        rw [hc, hx] at this
+        exact this
+
 end C12
